@@ -211,7 +211,46 @@ class Fn:
 
     @property
     def hir(self):
-        return self.j.get("hir")
+        """Typed HIR tree of the body, with the crate's own literal constants folded in: `const HEALTH: &str = "/health";
+        match p { HEALTH => .. }` reads as the literal it names (patterns and expressions alike)."""
+        h = self.j.get("hir")
+        if h is None or self.__dict__.get("_hir_folded"):
+            return h
+        self.__dict__["_hir_folded"] = True
+        raw = getattr(self.crate, "raw_by_path", None) or self.crate.by_path
+
+        def lit_of_const(path, depth=0):
+            f = raw.get(path)
+            if f is None or not str(getattr(f, "dk", "")).startswith("Const") or depth > 3:
+                return None
+            b = f.j.get("hir")
+            while isinstance(b, dict) and b.get("k") in ("Block",) and not b.get("stmts") and isinstance(b.get("expr"), dict):
+                b = b["expr"]
+            if isinstance(b, dict) and b.get("k") == "Lit":
+                return b
+            if isinstance(b, dict) and b.get("k") == "Path" and b.get("res") == "def" and str(b.get("dk", "")).startswith("Const"):
+                return lit_of_const(b.get("path"), depth + 1)
+            return None
+
+        def fold(n):
+            if isinstance(n, dict):
+                if n.get("k") == "Path" and n.get("res") == "def" and str(n.get("dk", "")).startswith("Const") and n.get("path") != self.path:
+                    lit = lit_of_const(n.get("path"))
+                    if lit is not None:
+                        keep = {k: v for k, v in n.items() if k in ("ln", "exp", "adj", "aty")}
+                        n.clear()
+                        n.update(lit)
+                        n.update(keep)
+                        n["const_item"] = True
+                        return
+                for v in n.values():
+                    fold(v)
+            elif isinstance(n, list):
+                for v in n:
+                    fold(v)
+
+        fold(h)
+        return h
 
     def promoted_bodies(self):
         """Promoted constant bodies of this function and of every helper spliced into it."""
